@@ -329,4 +329,700 @@ theorem splitOn_renderHead (lines : List Bytes) (h : ∀ l ∈ lines, lf ∉ l) 
     · simp at hm
       rcases hm with rfl | rfl <;> simp [cr, lf]
 
+/-! ### the framing decision delimits exactly the intended body -/
+section framing
+open Hdrs
+theorem finalHdrs_get (d : RespIn) (st : RespSt) (k' : Bytes)
+    (h1 : sameName nConnection k' = false) (h2 : sameName nContentEncoding k' = false) :
+    Hdrs.get (finalHdrs d st) k' = Hdrs.get st.hdrs k' := by
+  unfold finalHdrs
+  simp only []
+  repeat' split
+  all_goals simp [get_unset_ne, get_set, h1, h2]
+
+theorem finalHdrs_has (d : RespIn) (st : RespSt) (k' : Bytes)
+    (h1 : sameName nConnection k' = false) (h2 : sameName nContentEncoding k' = false) :
+    Hdrs.has (finalHdrs d st) k' = Hdrs.has st.hdrs k' := by
+  unfold has; rw [finalHdrs_get d st k' h1 h2]
+
+theorem rfcBody_length (b next : Bytes) :
+    rfcBody (.length (decNat (natToDec b.length))) (b ++ next) = some (b, next) := by
+  rw [decNat_natToDec]
+  simp [rfcBody]
+
+theorem chunkStream_plain (ps : List Bytes) : chunkStream false ps true = ps.flatten := by
+  induction ps with
+  | nil => simp [chunkStream, chunkClose]
+  | cons p rest ih =>
+    simp only [chunkStream, chunkClose] at ih ⊢
+    cases p with
+    | nil => simpa [chunkAppend] using ih
+    | cons a t => simpa [chunkAppend] using ih
+
+theorem drop_suffix (w next : Bytes) : (w ++ next).drop ((w ++ next).length - next.length) = next := by
+  have : (w ++ next).length - next.length = w.length := by simp
+  rw [this]; simp
+
+theorem rfcBody_chunked (q : Bytes) (ps : List Bytes) (next : Bytes)
+    (hq : chunkSizeOk q.length) (hp : ∀ p ∈ ps, chunkSizeOk p.length) :
+    rfcBody .chunked (chunkFirst q ++ chunkStream true ps true ++ next) = some (q ++ ps.flatten, next) := by
+  have key : ckFeed refCfg {} (chunkFirst q ++ chunkStream true ps true ++ next)
+      = { mode := .done, out := q ++ ps.flatten, ka := true, after := next.length } := by
+    by_cases he : q = []
+    · subst he
+      simpa [chunkFirst] using ckFeed_chunkStream refCfg rfl (by decide) next ps [] hp
+    · have hne : q.isEmpty = false := by
+        cases q with
+        | nil => exact absurd rfl he
+        | cons _ _ => rfl
+      have hgl := goodLine_hexBytes q.length hq
+      have : chunkFirst q ++ chunkStream true ps true ++ next
+          = (hexBytesLc q.length ++ [cr, lf] ++ q ++ [cr, lf]) ++ (chunkStream true ps true ++ next) := by
+        simp [chunkFirst, hne]
+      rw [this, ckFeed_append]
+      have h1 := ckFeed_chunk refCfg rfl hgl he [] true 0
+      simp only [List.nil_append] at h1
+      have h0 : ({} : CkSt) = { mode := .hdr [] false, out := [], ka := true, after := 0 } := rfl
+      rw [h0, h1]
+      exact ckFeed_chunkStream refCfg rfl (by decide) next ps q hp
+  simp only [rfcBody, key, drop_suffix]
+  simp
+
+
+
+def st0 (d : RespIn) : RespSt :=
+  { status := d.status, hdrs := d.hdrs, body := d.queued, finished := d.finished,
+    sendChunked := false, keepAlive := d.keepAlive }
+
+theorem wpStatus_normal (d : RespIn) (hb : isBodiless d.status = false)
+    (he : (400 ≤ d.status && d.status < 600 && errdocApplies d) = false) : wpStatus d = st0 d := by
+  unfold wpStatus st0
+  simp only [isBodiless, Bool.or_eq_false_iff, decide_eq_false_iff_not] at hb
+  obtain ⟨⟨h204, h205⟩, h304⟩ := hb
+  simp only [h204, h205, h304, decide_false, Bool.or_self, Bool.false_eq_true, if_false]
+  split
+  · rfl
+  · split
+    · rename_i hrange
+      simp only [hrange, Bool.true_and] at he
+      simp [staticErrdoc, he]
+    · rfl
+
+
+
+def FramingGoal (d : RespIn) (date next : Bytes) : Prop :=
+  let r := respond d date
+  let f := rfcFraming (decide (d.meth = .head)) r.status r.hdrs
+  r.status = d.status ∧ r.finished = true ∧ f ≠ .invalid ∧
+  (f = .close → r.keepAlive = false ∧ rfcBody f r.body = some (intendedBody d, [])) ∧
+  (f ≠ .close → rfcBody f (r.body ++ next) = some (intendedBody d, next)) ∧
+  ((d.meth = .head ∨ isBodiless d.status = true) → r.body = []) ∧
+  (d.status = 204 → Hdrs.has r.hdrs nContentLength = false)
+
+theorem has_of_get_some {hs : List Hdr} {k v : Bytes} (h : get hs k = some v) : has hs k = !v.isEmpty := by
+  simp [has, h]
+
+theorem rf_none (hd : Bool) (status : Nat) (hs : List Hdr)
+    (h : hd = true ∨ status = 204 ∨ status = 304) : rfcFraming hd status hs = .none := by
+  unfold rfcFraming
+  rcases h with h | h | h <;> simp [h]
+
+theorem rf_len (d : RespIn) (st : RespSt) (n : Nat) (h1 : ¬ st.status / 100 = 1) (h204 : st.status ≠ 204)
+    (h304 : st.status ≠ 304) (hte : has st.hdrs nTransferEncoding = false)
+    (hcl : get st.hdrs nContentLength = some (natToDec n)) :
+    rfcFraming false st.status (finalHdrs d st) = .length n := by
+  unfold rfcFraming
+  rw [finalHdrs_has d st _ nm_CO_TE nm_CE_TE, finalHdrs_get d st _ nm_CO_CL nm_CE_CL, hte, hcl]
+  simp [h1, h204, h304, natToDec_ne_nil, natToDec_all_digit, decNat_natToDec]
+
+theorem rf_chunked (d : RespIn) (st : RespSt) (h1 : ¬ st.status / 100 = 1) (h204 : st.status ≠ 204)
+    (h304 : st.status ≠ 304) (hte : has st.hdrs nTransferEncoding = true)
+    (hv : get st.hdrs nTransferEncoding = some (ofString "chunked")) :
+    rfcFraming false st.status (finalHdrs d st) = .chunked := by
+  unfold rfcFraming
+  rw [finalHdrs_has d st _ nm_CO_TE nm_CE_TE, finalHdrs_get d st _ nm_CO_TE nm_CE_TE, hte, hv]
+  simp [h1, h204, h304]
+
+theorem rf_close (d : RespIn) (st : RespSt) (h1 : ¬ st.status / 100 = 1) (h204 : st.status ≠ 204)
+    (h304 : st.status ≠ 304) (hte : has st.hdrs nTransferEncoding = false)
+    (hcl : has st.hdrs nContentLength = false) :
+    rfcFraming false st.status (finalHdrs d st) = .close := by
+  unfold rfcFraming
+  rw [finalHdrs_has d st _ nm_CO_TE nm_CE_TE, finalHdrs_get d st _ nm_CO_CL nm_CE_CL, hte]
+  simp only [h1, h204, h304, Bool.false_eq_true, decide_false, Bool.or_self, if_false]
+  unfold has at hcl
+  cases hg : get st.hdrs nContentLength with
+  | none => rfl
+  | some v =>
+    simp only [hg] at hcl
+    have : v.isEmpty = true := by simpa using hcl
+    simp [this]
+
+theorem intended_bodiless (d : RespIn) (h : d.meth = .head ∨ isBodiless d.status = true) :
+    intendedBody d = [] := by
+  unfold intendedBody
+  rcases h with h | h <;> simp [h]
+
+theorem goal_none (d : RespIn) (date next : Bytes) (st : RespSt) (hw : writePrepare d = st)
+    (hs : st.status = d.status) (hn : d.meth = .head ∨ d.status = 204 ∨ d.status = 304)
+    (hbody : st.body = []) (hfin : st.finished = true)
+    (h204 : d.status = 204 → has st.hdrs nContentLength = false) : FramingGoal d date next := by
+  have hint : intendedBody d = [] := by
+    apply intended_bodiless
+    rcases hn with h | h | h
+    · exact Or.inl h
+    · exact Or.inr (by simp [isBodiless, h])
+    · exact Or.inr (by simp [isBodiless, h])
+  have hf : rfcFraming (decide (d.meth = .head)) st.status (finalHdrs d st) = .none := by
+    apply rf_none
+    rcases hn with h | h | h
+    · exact Or.inl (by simp [h])
+    · exact Or.inr (Or.inl (by rw [hs]; exact h))
+    · exact Or.inr (Or.inr (by rw [hs]; exact h))
+  unfold FramingGoal respond
+  simp only [hw, hf, hfin, hbody, hint]
+  refine ⟨hs, by simp, by simp, by simp, by simp [rfcBody], by simp, ?_⟩
+  intro h
+  rw [finalHdrs_has d st _ nm_CO_CL nm_CE_CL]
+  exact h204 h
+
+theorem goal_len (d : RespIn) (date next : Bytes) (st : RespSt) (hw : writePrepare d = st)
+    (hs : st.status = d.status) (hm : d.meth ≠ .head) (h1 : ¬ d.status / 100 = 1) (h204 : d.status ≠ 204)
+    (h304 : d.status ≠ 304) (hte : has st.hdrs nTransferEncoding = false) (hch : st.sendChunked = false)
+    (hbody : st.body ++ (if st.finished then [] else d.pieces.flatten) = intendedBody d)
+    (hcl : get st.hdrs nContentLength = some (natToDec (intendedBody d).length))
+    (hclose : d.closeNormally = true) : FramingGoal d date next := by
+  have hf : rfcFraming (decide (d.meth = .head)) st.status (finalHdrs d st)
+      = .length (intendedBody d).length := by
+    have : decide (d.meth = .head) = false := by simp [hm]
+    rw [this]
+    exact rf_len d st _ (by rw [hs]; exact h1) (by rw [hs]; exact h204) (by rw [hs]; exact h304) hte hcl
+  have hb : st.body ++ (if st.finished then [] else chunkStream st.sendChunked d.pieces d.closeNormally)
+      = intendedBody d := by
+    rw [hch, hclose, chunkStream_plain]; exact hbody
+  unfold FramingGoal respond
+  simp only [hw, hf, hb]
+  refine ⟨hs, by simp [hclose], by simp, by simp, ?_, ?_, by intro h; exact absurd h h204⟩
+  · intro _
+    have := rfcBody_length (intendedBody d) next
+    rw [decNat_natToDec] at this
+    exact this
+  · intro h
+    rcases h with h | h
+    · exact absurd h hm
+    · exact intended_bodiless d (Or.inr h)
+
+theorem goal_chunked (d : RespIn) (date next : Bytes) (st : RespSt) (hw : writePrepare d = st)
+    (hs : st.status = d.status) (hm : d.meth ≠ .head) (h1 : ¬ d.status / 100 = 1) (hb : isBodiless d.status = false)
+    (hte : has st.hdrs nTransferEncoding = true)
+    (hv : get st.hdrs nTransferEncoding = some (ofString "chunked")) (hch : st.sendChunked = true)
+    (hfin : st.finished = false) (hbody : st.body = chunkFirst d.queued)
+    (hint : intendedBody d = d.queued ++ d.pieces.flatten)
+    (hclose : d.closeNormally = true)
+    (hsz : chunkSizeOk d.queued.length ∧ ∀ p ∈ d.pieces, chunkSizeOk p.length) : FramingGoal d date next := by
+  have hb0 := hb
+  simp only [isBodiless, Bool.or_eq_false_iff, decide_eq_false_iff_not] at hb
+  obtain ⟨⟨h204, _⟩, h304⟩ := hb
+  have hf : rfcFraming (decide (d.meth = .head)) st.status (finalHdrs d st) = .chunked := by
+    have : decide (d.meth = .head) = false := by simp [hm]
+    rw [this]
+    exact rf_chunked d st (by rw [hs]; exact h1) (by rw [hs]; exact h204) (by rw [hs]; exact h304) hte hv
+  unfold FramingGoal respond
+  simp only [hw, hf, hfin, hch, hclose, hbody, hint]
+  refine ⟨hs, by simp, by simp, by simp, ?_, ?_, by intro h; exact absurd h h204⟩
+  · intro _
+    simpa using rfcBody_chunked d.queued d.pieces next hsz.1 hsz.2
+  · intro h
+    rcases h with h | h
+    · exact absurd h hm
+    · rw [hb0] at h; exact absurd h (by simp)
+
+theorem goal_close (d : RespIn) (date next : Bytes) (st : RespSt) (hw : writePrepare d = st)
+    (hs : st.status = d.status) (hm : d.meth ≠ .head) (h1 : ¬ d.status / 100 = 1) (hb : isBodiless d.status = false)
+    (hte : has st.hdrs nTransferEncoding = false) (hcl : has st.hdrs nContentLength = false)
+    (hch : st.sendChunked = false) (hka : st.keepAlive = false)
+    (hbody : st.body ++ (if st.finished then [] else d.pieces.flatten) = intendedBody d)
+    (hclose : d.closeNormally = true) : FramingGoal d date next := by
+  simp only [isBodiless, Bool.or_eq_false_iff, decide_eq_false_iff_not] at hb
+  obtain ⟨⟨h204, h205⟩, h304⟩ := hb
+  have hf : rfcFraming (decide (d.meth = .head)) st.status (finalHdrs d st) = .close := by
+    have : decide (d.meth = .head) = false := by simp [hm]
+    rw [this]
+    exact rf_close d st (by rw [hs]; exact h1) (by rw [hs]; exact h204) (by rw [hs]; exact h304) hte hcl
+  have hbd : st.body ++ (if st.finished then [] else chunkStream st.sendChunked d.pieces d.closeNormally)
+      = intendedBody d := by
+    rw [hch, hclose, chunkStream_plain]; exact hbody
+  unfold FramingGoal respond
+  simp only [hw, hf, hbd]
+  refine ⟨hs, by simp [hclose], by simp, ?_, by simp, ?_, by intro h; exact absurd h h204⟩
+  · intro _
+    refine ⟨?_, by simp [rfcBody]⟩
+    simp [kaAfterLimits, hka]
+  · intro h
+    rcases h with h | h
+    · exact absurd h hm
+    · simp [isBodiless, h204, h205, h304] at h
+
+theorem framing_normal (d : RespIn) (date next : Bytes) (h : HandlerSane d) (hm : d.meth ≠ .head)
+    (hb : isBodiless d.status = false)
+    (he : (400 ≤ d.status && d.status < 600 && errdocApplies d) = false) : FramingGoal d date next := by
+  have hst := wpStatus_normal d hb he
+  have h1xx : ¬ d.status / 100 = 1 := by have := h.status; omega
+  have hbl := hb
+  simp only [isBodiless, Bool.or_eq_false_iff, decide_eq_false_iff_not] at hbl
+  obtain ⟨⟨h204, h205⟩, h304⟩ := hbl
+  have hint : intendedBody d = d.queued ++ (if d.finished then [] else d.pieces.flatten) := by
+    simp [intendedBody, hm, hb, he]
+  have hwp : writePrepare d = wpFraming d (st0 d) := by
+    unfold writePrepare; rw [hst]; simp [wpHead, hm]
+  by_cases hfin : d.finished = true
+  · by_cases hcl : has d.hdrs nContentLength = true
+    · -- the handler declared the length itself
+      have hw : writePrepare d = st0 d := by
+        rw [hwp]; simp [wpFraming, st0, hfin, hcl]
+      obtain ⟨v, hv⟩ : ∃ v, get d.hdrs nContentLength = some v := by
+        unfold has at hcl
+        cases hg : get d.hdrs nContentLength with
+        | none => simp [hg] at hcl
+        | some v => exact ⟨v, rfl⟩
+      have hvne : v.isEmpty = false := by simpa [has, hv] using hcl
+      have hdecl := h.declared hm hb v hv hvne
+      refine goal_len d date next (st0 d) hw rfl hm h1xx h204 h304 h.noTE rfl ?_ ?_ h.closes
+      · simp [st0, hint, hfin]
+      · rw [hint]; simp only [st0, hv, hdecl]
+    · have hcl' : has d.hdrs nContentLength = false := by simpa using hcl
+      have hw : writePrepare d = { st0 d with hdrs := Hdrs.set d.hdrs nContentLength (natToDec d.queued.length) } := by
+        rw [hwp]
+        by_cases hq : d.queued.length > 0
+        · simp [wpFraming, st0, hfin, hcl', h.noTE, hq]
+        · have hz : d.queued.length = 0 := by omega
+          simp [wpFraming, st0, hfin, hcl', h.noTE, hz, hm, h204, h304, natToDec_zero]
+      refine goal_len d date next _ hw rfl hm h1xx h204 h304 ?_ rfl ?_ ?_ h.closes
+      · simp [has_set, nm_CL_TE, h.noTE]
+      · simp [st0, hint, hfin]
+      · simp [get_set, nm_CL_CL, hint, hfin]
+  · have hfin' : d.finished = false := by simpa using hfin
+    by_cases hcl : has d.hdrs nContentLength = true
+    · have hw : writePrepare d = st0 d := by
+        rw [hwp]; simp [wpFraming, st0, hfin', hcl]
+      obtain ⟨v, hv⟩ : ∃ v, get d.hdrs nContentLength = some v := by
+        unfold has at hcl
+        cases hg : get d.hdrs nContentLength with
+        | none => simp [hg] at hcl
+        | some v => exact ⟨v, rfl⟩
+      have hvne : v.isEmpty = false := by simpa [has, hv] using hcl
+      have hdecl := h.declared hm hb v hv hvne
+      refine goal_len d date next (st0 d) hw rfl hm h1xx h204 h304 h.noTE rfl ?_ ?_ h.closes
+      · simp [st0, hint, hfin']
+      · rw [hint]; simp only [st0, hv, hdecl]
+    · have hcl' : has d.hdrs nContentLength = false := by simpa using hcl
+      have hnt : (d.meth = .connect && d.status = 200) = false := by
+        have := h.notTunnel
+        by_cases a : d.meth = .connect <;> by_cases b : d.status = 200 <;> simp_all
+      by_cases hv : d.ver11 = true
+      · have hw : writePrepare d = ⟨d.status, Hdrs.append d.hdrs nTransferEncoding (ofString "chunked"),
+            chunkFirst d.queued, false, true, d.keepAlive⟩ := by
+          rw [hwp]; simp [wpFraming, st0, hfin', hcl', h.noTE, h.noUpgrade, hnt, hv]
+        have hce : (ofString "chunked").isEmpty = false := by decide
+        refine goal_chunked d date next _ hw rfl hm h1xx hb ?_ ?_ rfl rfl rfl ?_ h.closes h.sizes
+        · simp [has_append _ _ _ _ hce, nm_TE_TE]
+        · exact get_append_fresh _ _ _ hce h.noTE
+        · simp [hint, hfin']
+      · have hv' : d.ver11 = false := by simpa using hv
+        have hw : writePrepare d = { st0 d with keepAlive := false } := by
+          rw [hwp]; simp [wpFraming, st0, hfin', hcl', h.noTE, h.noUpgrade, hnt, hv']
+        refine goal_close d date next _ hw rfl hm h1xx hb h.noTE hcl' rfl rfl ?_ h.closes
+        · simp [st0, hint, hfin']
+
+theorem wpStatus_status (d : RespIn) : (wpStatus d).status = d.status := by
+  unfold wpStatus
+  simp only []
+  repeat' split
+  all_goals simp [bodyClear, staticErrdoc]
+  all_goals (split <;> rfl)
+
+theorem wpFraming_status (d : RespIn) (st : RespSt) : (wpFraming d st).status = st.status := by
+  unfold wpFraming
+  repeat' split
+  all_goals rfl
+
+/-- what `switch (r->http_status)` leaves behind for 204 / 205 -/
+theorem wpStatus_2045 (d : RespIn) (h : d.status = 204 ∨ d.status = 205) :
+    wpStatus d = ⟨d.status, Hdrs.unset (Hdrs.unset d.hdrs nContentLength) nTransferEncoding, [], true, false,
+      d.keepAlive⟩ := by
+  unfold wpStatus
+  rcases h with h | h <;> simp [h, bodyClear]
+
+theorem wpStatus_304 (d : RespIn) (h : d.status = 304) :
+    wpStatus d = ⟨d.status, Hdrs.unset d.hdrs nTransferEncoding, [], true, false, d.keepAlive⟩ := by
+  unfold wpStatus
+  simp [h, bodyClear]
+
+def errKeep (d : RespIn) : List Hdr :=
+  if d.status = 401 then
+    match Hdrs.get d.hdrs nWwwAuthenticate with
+    | some v => if v.isEmpty then [] else [⟨nWwwAuthenticate, v⟩]
+    | none => []
+  else []
+
+theorem errKeep_has (d : RespIn) (k : Bytes) (hk : sameName nWwwAuthenticate k = false) :
+    has (errKeep d) k = false := by
+  unfold errKeep
+  split
+  · split
+    · split
+      · simp [Hdrs.has, Hdrs.get]
+      · simp [Hdrs.has, Hdrs.get, hk]
+    · simp [Hdrs.has, Hdrs.get]
+  · simp [Hdrs.has, Hdrs.get]
+
+theorem wpStatus_err (d : RespIn) (hr : (400 ≤ d.status && d.status < 600) = true) (ha : errdocApplies d = true) :
+    wpStatus d = ⟨d.status, Hdrs.set (errKeep d) nContentType (ofString "text/html"), errorPage d.status, true,
+      false, d.keepAlive⟩ := by
+  have h1 : 400 ≤ d.status ∧ d.status < 600 := by simpa using hr
+  have h200 : d.status ≠ 200 := by omega
+  have h204 : d.status ≠ 204 := by omega
+  have h205 : d.status ≠ 205 := by omega
+  have h304 : d.status ≠ 304 := by omega
+  unfold wpStatus
+  simp only [h200, h204, h205, h304, hr, if_false, if_true, decide_false, Bool.or_self, Bool.false_eq_true]
+  unfold staticErrdoc
+  simp only [ha, Bool.not_true, Bool.false_eq_true, if_false]
+  rfl
+
+theorem errorPage_pos (s : Nat) : 0 < (errorPage s).length := by
+  unfold errorPage
+  simp only [List.length_append]
+  have : 0 < (ofString "<!DOCTYPE html>\n<html lang=\"en\">\n <head>\n  <meta charset=\"UTF-8\" />\n  <title>").length := by
+    decide
+  omega
+
+theorem has_nil (k : Bytes) : has [] k = false := by simp [Hdrs.has, Hdrs.get]
+
+theorem framing_head (d : RespIn) (date next : Bytes) (h : HandlerSane d) (hm : d.meth = .head) :
+    FramingGoal d date next := by
+  have hw : writePrepare d = ⟨d.status, Hdrs.unset (wpFraming d (wpStatus d)).hdrs nTransferEncoding, [], true,
+      false, (wpFraming d (wpStatus d)).keepAlive⟩ := by
+    unfold writePrepare wpHead
+    simp [hm, bodyClear, wpFraming_status, wpStatus_status]
+  refine goal_none d date next _ hw rfl (Or.inl hm) rfl rfl ?_
+  intro h204
+  simp only [has_unset, nm_TE_CL, Bool.false_eq_true, if_false]
+  rw [wpStatus_2045 d (Or.inl h204)]
+  simp [wpFraming, has_unset, nm_TE_CL, nm_CL_CL, nm_TE_TE, hm, h204]
+
+theorem framing_bodiless (d : RespIn) (date next : Bytes) (h : HandlerSane d) (hm : d.meth ≠ .head)
+    (hb : isBodiless d.status = true) : FramingGoal d date next := by
+  have hcases : d.status = 204 ∨ d.status = 205 ∨ d.status = 304 := by
+    simp only [isBodiless, Bool.or_eq_true, decide_eq_true_eq] at hb
+    rcases hb with (h1 | h1) | h1
+    · exact Or.inl h1
+    · exact Or.inr (Or.inl h1)
+    · exact Or.inr (Or.inr h1)
+  have hwp : writePrepare d = wpFraming d (wpStatus d) := by
+    unfold writePrepare; simp [wpHead, hm]
+  rcases hcases with h204 | h205 | h304
+  · have hw : writePrepare d = ⟨d.status, Hdrs.unset (Hdrs.unset d.hdrs nContentLength) nTransferEncoding, [],
+        true, false, d.keepAlive⟩ := by
+      rw [hwp, wpStatus_2045 d (Or.inl h204)]
+      simp [wpFraming, has_unset, nm_TE_CL, nm_CL_CL, nm_TE_TE, h204]
+    refine goal_none d date next _ hw rfl (Or.inr (Or.inl h204)) rfl rfl ?_
+    intro _
+    simp [has_unset, nm_TE_CL, nm_CL_CL]
+  · have hw : writePrepare d = ⟨d.status, Hdrs.set (Hdrs.unset (Hdrs.unset d.hdrs nContentLength) nTransferEncoding)
+        nContentLength [48], [], true, false, d.keepAlive⟩ := by
+      rw [hwp, wpStatus_2045 d (Or.inr h205)]
+      simp [wpFraming, has_unset, nm_TE_CL, nm_CL_CL, nm_TE_TE, h205, hm]
+    have hint : intendedBody d = [] := intended_bodiless d (Or.inr hb)
+    refine goal_len d date next _ hw rfl hm (by omega) (by omega) (by omega) ?_ rfl ?_ ?_ h.closes
+    · simp [has_set, has_unset, nm_CL_TE, nm_TE_TE]
+    · simp [hint]
+    · simp [get_set, nm_CL_CL, hint, natToDec_zero]
+  · have hw : writePrepare d = ⟨d.status, Hdrs.unset d.hdrs nTransferEncoding, [], true, false, d.keepAlive⟩ := by
+      rw [hwp, wpStatus_304 d h304]
+      by_cases hcl : has d.hdrs nContentLength = true <;>
+        simp [wpFraming, has_unset, nm_TE_CL, nm_TE_TE, h304, hcl]
+    refine goal_none d date next _ hw rfl (Or.inr (Or.inr h304)) rfl rfl ?_
+    intro h204
+    omega
+
+theorem framing_errdoc (d : RespIn) (date next : Bytes) (h : HandlerSane d) (hm : d.meth ≠ .head)
+    (he : (400 ≤ d.status && d.status < 600 && errdocApplies d) = true) : FramingGoal d date next := by
+  have hr : (400 ≤ d.status && d.status < 600) = true := by
+    simp only [Bool.and_eq_true] at he ⊢; exact he.1
+  have ha : errdocApplies d = true := by
+    simp only [Bool.and_eq_true] at he; exact he.2
+  have h1 : 400 ≤ d.status ∧ d.status < 600 := by simpa using hr
+  have hb : isBodiless d.status = false := by
+    simp only [isBodiless, Bool.or_eq_false_iff, decide_eq_false_iff_not]; omega
+  have hint : intendedBody d = errorPage d.status := by
+    simp [intendedBody, hm, hb, he]
+  have hpos := errorPage_pos d.status
+  have hw : writePrepare d = ⟨d.status, Hdrs.set (Hdrs.set (errKeep d) nContentType (ofString "text/html"))
+      nContentLength (natToDec (errorPage d.status).length), errorPage d.status, true, false, d.keepAlive⟩ := by
+    unfold writePrepare
+    rw [wpStatus_err d hr ha]
+    simp [wpHead, hm, wpFraming, has_set, nm_CT_CL, nm_CT_TE, errKeep_has, nm_WA_CL, nm_WA_TE, hpos]
+  refine goal_len d date next _ hw rfl hm (by omega) (by omega) (by omega) ?_ rfl ?_ ?_ h.closes
+  · simp [has_set, nm_CL_TE, nm_CT_TE, errKeep_has, nm_WA_TE]
+  · simp [hint]
+  · simp [get_set, nm_CL_CL, hint]
+
+theorem framing_sound_core (d : RespIn) (date next : Bytes) (h : HandlerSane d) : FramingGoal d date next := by
+  by_cases hm : d.meth = .head
+  · exact framing_head d date next h hm
+  · by_cases hb : isBodiless d.status = true
+    · exact framing_bodiless d date next h hm hb
+    · by_cases he : (400 ≤ d.status && d.status < 600 && errdocApplies d) = true
+      · exact framing_errdoc d date next h hm he
+      · exact framing_normal d date next h hm (by simpa using hb) (by simpa using he)
+
+end framing
+
+/-! ### nothing in the header section can start a new line -/
+section clean
+
+def NoCRLF (b : Bytes) : Prop := cr ∉ b ∧ lf ∉ b
+
+def HdrsClean (hs : List Hdr) : Prop := ∀ h ∈ hs, NoCRLF h.key ∧ NoCRLF h.value
+
+theorem NoCRLF.append {a b : Bytes} (ha : NoCRLF a) (hb : NoCRLF b) : NoCRLF (a ++ b) :=
+  ⟨fun h => (List.mem_append.mp h).elim ha.1 hb.1, fun h => (List.mem_append.mp h).elim ha.2 hb.2⟩
+
+theorem NoCRLF.nil : NoCRLF [] := ⟨by simp, by simp⟩
+
+theorem natToDec_clean (n : Nat) : NoCRLF (natToDec n) := by
+  have hall := natToDec_all_digit n
+  rw [List.all_eq_true] at hall
+  constructor <;> intro hm <;> have := hall _ hm <;> simp [isDigit, cr, lf] at this
+
+theorem get_mem {hs : List Hdr} {k v : Bytes} (h : Hdrs.get hs k = some v) : ∃ x ∈ hs, x.value = v := by
+  unfold Hdrs.get at h
+  cases hf : hs.find? (fun h => Hdrs.sameName h.key k) with
+  | none => simp [hf] at h
+  | some x =>
+    simp only [hf, Option.map_some, Option.some.injEq] at h
+    exact ⟨x, List.mem_of_find?_eq_some hf, h⟩
+
+theorem clean_update {hs : List Hdr} (k v : Bytes) (h : HdrsClean hs) (hv : NoCRLF v) :
+    HdrsClean (Hdrs.update hs k v) := by
+  intro x hx
+  unfold Hdrs.update at hx
+  obtain ⟨y, hy, rfl⟩ := List.mem_map.mp hx
+  split
+  · exact ⟨(h y hy).1, hv⟩
+  · exact h y hy
+
+theorem clean_snoc {hs : List Hdr} (k v : Bytes) (h : HdrsClean hs) (hk : NoCRLF k) (hv : NoCRLF v) :
+    HdrsClean (hs ++ [⟨k, v⟩]) := by
+  intro x hx
+  rcases List.mem_append.mp hx with h1 | h1
+  · exact h x h1
+  · simp at h1; subst h1; exact ⟨hk, hv⟩
+
+theorem clean_set {hs : List Hdr} (k v : Bytes) (h : HdrsClean hs) (hk : NoCRLF k) (hv : NoCRLF v) :
+    HdrsClean (Hdrs.set hs k v) := by
+  unfold Hdrs.set
+  split
+  · exact clean_update k v h hv
+  · exact clean_snoc k v h hk hv
+
+theorem clean_unset {hs : List Hdr} (k : Bytes) (h : HdrsClean hs) : HdrsClean (Hdrs.unset hs k) := by
+  unfold Hdrs.unset
+  split
+  · exact clean_update k [] h NoCRLF.nil
+  · exact h
+
+theorem clean_append {hs : List Hdr} (k v : Bytes) (h : HdrsClean hs) (hk : NoCRLF k) (hv : NoCRLF v) :
+    HdrsClean (Hdrs.append hs k v) := by
+  unfold Hdrs.append
+  split
+  · exact h
+  · cases hg : Hdrs.get hs k with
+    | some old =>
+      simp only []
+      obtain ⟨x, hx, hxv⟩ := get_mem hg
+      have hold : NoCRLF old := hxv ▸ (h x hx).2
+      split
+      · exact clean_update k v h hv
+      · exact clean_update k _ h ((hold.append ⟨by decide, by decide⟩).append hv)
+    | none => exact clean_snoc k v h hk hv
+
+theorem nCL_clean : NoCRLF nContentLength := ⟨by decide, by decide⟩
+theorem nTE_clean : NoCRLF nTransferEncoding := ⟨by decide, by decide⟩
+theorem nCO_clean : NoCRLF nConnection := ⟨by decide, by decide⟩
+theorem nCT_clean : NoCRLF nContentType := ⟨by decide, by decide⟩
+theorem lit_clean_chunked : NoCRLF (ofString "chunked") := ⟨by decide, by decide⟩
+theorem lit_clean_close : NoCRLF (ofString "close") := ⟨by decide, by decide⟩
+theorem lit_clean_upgrade : NoCRLF (ofString "upgrade") := ⟨by decide, by decide⟩
+theorem lit_clean_keepalive : NoCRLF (ofString "keep-alive") := ⟨by decide, by decide⟩
+theorem lit_clean_texthtml : NoCRLF (ofString "text/html") := ⟨by decide, by decide⟩
+theorem lit_clean_zero : NoCRLF [48] := ⟨by decide, by decide⟩
+
+theorem clean_nil : HdrsClean [] := by intro x hx; simp at hx
+
+theorem errKeep_clean (d : RespIn) (h : HdrsClean d.hdrs) : HdrsClean (errKeep d) := by
+  unfold errKeep
+  split
+  · split
+    · rename_i v hg
+      split
+      · exact clean_nil
+      · obtain ⟨x, hx, hxv⟩ := get_mem hg
+        intro y hy
+        simp at hy
+        subst hy
+        have hk : NoCRLF nWwwAuthenticate := ⟨by decide, by decide⟩
+        exact ⟨hk, hxv ▸ (h x hx).2⟩
+    · exact clean_nil
+  · exact clean_nil
+
+theorem wpStatus_clean (d : RespIn) (h : HdrsClean d.hdrs) : HdrsClean (wpStatus d).hdrs := by
+  by_cases hb : isBodiless d.status = true
+  · have hcases : d.status = 204 ∨ d.status = 205 ∨ d.status = 304 := by
+      simp only [isBodiless, Bool.or_eq_true, decide_eq_true_eq] at hb
+      rcases hb with (h1 | h1) | h1
+      · exact Or.inl h1
+      · exact Or.inr (Or.inl h1)
+      · exact Or.inr (Or.inr h1)
+    rcases hcases with h1 | h1 | h1
+    · rw [wpStatus_2045 d (Or.inl h1)]; exact clean_unset _ (clean_unset _ h)
+    · rw [wpStatus_2045 d (Or.inr h1)]; exact clean_unset _ (clean_unset _ h)
+    · rw [wpStatus_304 d h1]; exact clean_unset _ h
+  · by_cases he : (400 ≤ d.status && d.status < 600 && errdocApplies d) = true
+    · have hr : (400 ≤ d.status && d.status < 600) = true := by
+        simp only [Bool.and_eq_true] at he ⊢; exact he.1
+      have ha : errdocApplies d = true := by
+        simp only [Bool.and_eq_true] at he; exact he.2
+      rw [wpStatus_err d hr ha]
+      exact clean_set _ _ (errKeep_clean d h) nCT_clean lit_clean_texthtml
+    · rw [wpStatus_normal d (by simpa using hb) (by simpa using he)]
+      exact h
+
+theorem wpFraming_clean (d : RespIn) (st : RespSt) (h : HdrsClean st.hdrs) : HdrsClean (wpFraming d st).hdrs := by
+  unfold wpFraming
+  repeat' split
+  all_goals first
+    | exact h
+    | exact clean_set _ _ h nCL_clean (natToDec_clean _)
+    | exact clean_set _ _ h nCL_clean lit_clean_zero
+    | exact clean_append _ _ h nTE_clean lit_clean_chunked
+
+theorem wpHead_clean (d : RespIn) (st : RespSt) (h : HdrsClean st.hdrs) : HdrsClean (wpHead d st).hdrs := by
+  unfold wpHead
+  split
+  · simp only [bodyClear]; exact clean_unset _ h
+  · exact h
+
+theorem finalHdrs_clean (d : RespIn) (st : RespSt) (h : HdrsClean st.hdrs) : HdrsClean (finalHdrs d st) := by
+  unfold finalHdrs
+  simp only []
+  repeat' split
+  all_goals first
+    | exact h
+    | exact clean_set _ _ h nCO_clean lit_clean_upgrade
+    | exact clean_set _ _ h nCO_clean lit_clean_close
+    | exact clean_set _ _ h nCO_clean lit_clean_keepalive
+    | exact clean_unset _ h
+    | exact clean_unset _ (clean_set _ _ h nCO_clean lit_clean_upgrade)
+    | exact clean_unset _ (clean_set _ _ h nCO_clean lit_clean_close)
+    | exact clean_unset _ (clean_set _ _ h nCO_clean lit_clean_keepalive)
+
+theorem respond_hdrs_clean (d : RespIn) (date : Bytes) (h : HdrsClean d.hdrs) :
+    HdrsClean (respond d date).hdrs := by
+  unfold respond writePrepare
+  exact finalHdrs_clean d _ (wpHead_clean d _ (wpFraming_clean d _ (wpStatus_clean d h)))
+
+theorem statusTable_clean : ∀ e ∈ Extracted.statusTable, NoCRLF (ofString e.2) := by
+  unfold NoCRLF
+  decide +kernel
+
+theorem statusText_clean (s : Nat) : NoCRLF (statusText s) := by
+  unfold statusText
+  split
+  · rename_i e hf
+    exact statusTable_clean e (List.mem_of_find?_eq_some hf)
+  · exact (natToDec_clean s).append ⟨by decide, by decide⟩
+
+theorem headLines_clean (ver11 : Bool) (status : Nat) (hs : List Hdr) (date : Bytes) (tag : Option Bytes)
+    (h : HdrsClean hs) (hd : NoCRLF date) (ht : ∀ t, tag = some t → NoCRLF t) :
+    ∀ l ∈ headLines ver11 status hs date tag, NoCRLF l := by
+  have hstat : NoCRLF ((if ver11 then ofString "HTTP/1.1 " else ofString "HTTP/1.0 ") ++ statusText status) := by
+    cases ver11
+    · exact NoCRLF.append ⟨by decide, by decide⟩ (statusText_clean status)
+    · exact NoCRLF.append ⟨by decide, by decide⟩ (statusText_clean status)
+  have hfield : ∀ l ∈ (hs.filter fieldVisible).map renderField, NoCRLF l := by
+    intro l hl
+    obtain ⟨x, hx, rfl⟩ := List.mem_map.mp hl
+    have hx' := (List.mem_filter.mp hx).1
+    unfold renderField
+    exact ((h x hx').1.append ⟨by decide, by decide⟩).append (h x hx').2
+  have hdate : ∀ l ∈ (if Hdrs.has hs nDate then [] else [ofString "Date: " ++ date]), NoCRLF l := by
+    intro l hl
+    split at hl
+    · simp at hl
+    · simp at hl; subst hl
+      exact NoCRLF.append ⟨by decide, by decide⟩ hd
+  have hsrv : ∀ l ∈ (match tag with
+        | some t => if Hdrs.has hs nServer then [] else [ofString "Server: " ++ t]
+        | none => []), NoCRLF l := by
+    intro l hl
+    cases tag with
+    | none => simp at hl
+    | some t =>
+      simp only [] at hl
+      split at hl
+      · simp at hl
+      · simp at hl; subst hl
+        exact NoCRLF.append ⟨by decide, by decide⟩ (ht t rfl)
+  intro l hl
+  unfold headLines at hl
+  rcases List.mem_cons.mp hl with rfl | hl
+  · exact hstat
+  · rcases List.mem_append.mp hl with hl | hl
+    · rcases List.mem_append.mp hl with hl | hl
+      · exact hfield l hl
+      · exact hdate l hl
+    · exact hsrv l hl
+
+end clean
+
+/-! ### decoded paths carry no control characters -/
+
+theorem decodeByte_printable (hv lv : UInt8) : 32 ≤ decodeByte hv lv ∧ decodeByte hv lv ≠ 127 := by
+  unfold decodeByte
+  simp only []
+  split
+  · rename_i h
+    simp only [ge_iff_le, ne_eq, Bool.and_eq_true, decide_eq_true_eq] at h
+    exact h
+  · decide
+
+theorem urldecodePath_printable : ∀ (s : Bytes), (∀ b ∈ s, 32 ≤ b ∧ b ≠ 127) →
+    ∀ b ∈ urldecodePath s, 32 ≤ b ∧ b ≠ 127 := by
+  intro s
+  fun_induction urldecodePath s with
+  | case1 => intro _ b hb; simp at hb
+  | case2 b => intro h x hx; simp at hx; subst hx; exact h _ (by simp)
+  | case3 a b ih =>
+    intro h x hx
+    rcases List.mem_cons.mp hx with rfl | hx
+    · exact h _ (by simp)
+    · exact ih (fun y hy => h y (by simp at hy; simp [hy])) x hx
+  | case4 hh l rest hv lv _ _ ih =>
+    intro h x hx
+    rcases List.mem_cons.mp hx with rfl | hx
+    · exact decodeByte_printable hv lv
+    · exact ih (fun y hy => h y (by simp [hy])) x hx
+  | case5 hh l rest _ ih =>
+    intro h x hx
+    rcases List.mem_cons.mp hx with rfl | hx
+    · exact h _ (by simp)
+    · exact ih (fun y hy => h y (List.mem_cons_of_mem _ hy)) x hx
+  | case6 b hh l rest _ ih =>
+    intro h x hx
+    rcases List.mem_cons.mp hx with rfl | hx
+    · exact h _ (by simp)
+    · exact ih (fun y hy => h y (List.mem_cons_of_mem _ hy)) x hx
+
 end LtVerif
